@@ -74,6 +74,8 @@ func NewSolver(name string, timeoutMs int, log io.Writer) (*Solver, error) {
 	} else {
 		s.send("(set-option :global-declarations true)")
 	}
+	// uninterpreted rank function used by harnesses to assume acyclicity
+	s.send("(declare-fun vrank (String) Int)")
 	return s, nil
 }
 
